@@ -133,5 +133,22 @@ def main():
     print("harvested %d doctest assertions and %d table rows -> %s" % (nd, len(out) - nd, OUT))
 
 
+def prebuilt():
+    """definitions of the prebuilt language formats (setter chains) -> harness/prebuilt.json"""
+    src = open("/repo/lexical-util/src/prebuilt_formats.rs").read()
+    out = []
+    for m in re.finditer(r"pub const ([A-Z0-9_]+): u128 = (NumberFormatBuilder::new\(\).*?\.build_strict\(\));", src, re.S):
+        try:
+            out.append((m.group(1), parse_chain(m.group(2))))
+        except ValueError:
+            pass
+    p = os.path.join(os.path.dirname(OUT), "prebuilt.json")
+    new = json.dumps(out)
+    if not os.path.exists(p) or open(p).read() != new:
+        open(p, "w").write(new)
+    print("harvested %d prebuilt format definitions" % len(out))
+
+
 if __name__ == "__main__":
     main()
+    prebuilt()
